@@ -230,6 +230,27 @@ func runC11(r *core.Run) {
 			r.Eventf("rotation after the lost write -> %s, writes: %s", errClass(err4, false), writeNames(lw.Disk.Log[start4:]))
 			checkPrefixes(r, pre4, lw.Disk.Log[start4:], fmt.Sprintf("rotate/after-lost-write@%d/long-lived=%v", j, lw.Persist), hist)
 		}
+		// The same rotation under --keep_going (drawn --overwrite) with ONE call to key manager, signer
+		// or certificate authority failing: whatever the tolerant mode then writes, every prefix of
+		// it is a consistent store, and the manifest is not written ahead of its certificates.
+		if r.Chance(35, "keep-going-under-fault?") {
+			kg := a.Clone()
+			kg.Now = a.Now
+			kg.Disk = pre.Snapshot()
+			plan := seams.NewPlanNone(r)
+			plan.Mode, plan.K, plan.Kind = 1, r.Intn(40, "kg-fault-call"), seams.ErrBefore
+			kg.Plan, kg.Decorate = plan, true
+			ra5 := ra
+			ra5.KeepGoing, ra5.Overwrite = true, r.Bool("kg-overwrite")
+			err, _ := kg.Rotate(ra5)
+			plan.Mode = 0
+			kg.Decorate = false
+			r.Eventf("rotate --keep_going under a fault at call %d (fired=%d) -> %s, durable writes: %s", plan.K, plan.Fired, errClass(err, false), writeNames(kg.Disk.Log))
+			checkPrefixes(r, pre, kg.Disk.Log, fmt.Sprintf("rotate/keep-going-under-fault/ow=%v", ra5.Overwrite), hist)
+			if plan.Fired > 0 {
+				r.Probe("keep-going-rotation-hit-by-a-fault")
+			}
+		}
 		// A rotation cut short at a drawn strict prefix, then re-run with --overwrite from there.
 		if len(writes) > 1 && r.Chance(40, "cut-and-rerun?") {
 			p := 1 + r.Intn(len(writes)-1, "cut-at")
